@@ -35,6 +35,9 @@ signal handlers between the calls, and `swap` = the following calls go to the ot
 * `C15_junk_exact`         : the recorded junk is exactly what was left over
 * `C15_bounded`, `C15_loop_ends_by_crash` : the run consumes at most `timeout` of virtual time, its loop ends by a crash
 * `C15_history_idle`       : all of it at every step of every history
+* `C15_src_callbacks`, `C15_src_stop_reactor`, `C15_src_timed_out`, `C15_src_get_result`, `C15_src_clean`, `C15_src_run`, `C15_src_shapes`
+                           : translator tie - the model is the interpretation (`TTV.SpinnerSkel`) of `Spinner.run`, its callbacks,
+                             `_get_result`, `_clean` and the helpers as re-read from `_spinner.py` on every run
 -/
 namespace TTV.Props.C15
 open TTV.Reactor TTV.Spinner TTV.Spec.C15
